@@ -16,7 +16,7 @@ from ..common import (Verdict, run_tlc, tlc_must_pass, validate_traces_parallel,
 from ..gen import write_job, generate, run_in_pkg
 from ..universe import gamma
 
-OWN = {"J": "name", "I": "rank", "A": "a1"}
+OWN = {"J": "name", "I": "rank", "A": "a1", "B": "b1"}
 ROOTF = {"J": "j", "I": "i", "A": "a"}
 INVS = ["MixinClassExists", "DepsBeforeDependants", "OrderIsModule", "DirectSpreadIsBase", "StrictOrKnown"]
 
